@@ -232,10 +232,27 @@ MUTANTS = [
     ("atleast-declared-linear-in-all-arguments", {"C02": "A1.lin"}, [(NJ, "defjvp(anp.atleast_1d, atleast_jvpmaker(anp.atleast_1d))", "def_linear(anp.atleast_1d)")]),
     ("einsum-list-format-unbroadcast-by-output-sublist", {"C05": "A3.einsum", "C01": "A3.einsum"}, [(NV, "            return unbroadcast_einsum(anp.einsum(g, *rest_of_ops), result_meta, operands[argnum + 1])", "            return unbroadcast_einsum(anp.einsum(g, *rest_of_ops), result_meta, operands[-1])")]),
     ("inner-product-in-fixed-double-precision", {"C13": "A9.pure"}, [(NS, "        return np.dot(np.ravel(x), np.ravel(y))", "        return np.dot(np.ravel(np.asarray(x, dtype=np.float64)), np.ravel(np.asarray(y, dtype=np.float64)))")]),
+    ("tril-vjp-ignores-k", {"C01": "A2.ignored", "C15": "A2.ignored"}, [(NV, "defvjp(anp.tril, lambda ans, x, k=0: lambda g: anp.tril(g, k=k))", "defvjp(anp.tril, lambda ans, x, k=0: lambda g: anp.tril(g))")]),
+    ("prod-jvp-swallows-options", {"C02": "A2.ignored", "C15": "A2.ignored"}, [(NJ, "    anp.prod, lambda g, ans, x, axis=None, keepdims=False: ans * anp.sum(g / x, axis=axis, keepdims=keepdims)", "    anp.prod, lambda g, ans, x, axis=None, keepdims=False, **options: ans * anp.sum(g / x, axis=axis, keepdims=keepdims)")]),
+    ("roll-vjp-last-axis-when-none", {"C01": "A7.none"}, [(NV, "defvjp(anp.roll, lambda ans, x, shift, axis=None: lambda g: anp.roll(g, -shift, axis=axis))", "defvjp(anp.roll, lambda ans, x, shift, axis=None: lambda g: anp.roll(g, -shift, axis=-1 if axis is None else axis))")]),
+    ("prod-jvp-full-shaped-for-single-element", {"C02": "A3.reduce"}, [(NJ, "    anp.prod, lambda g, ans, x, axis=None, keepdims=False: ans * anp.sum(g / x, axis=axis, keepdims=keepdims)", "    anp.prod, lambda g, ans, x, axis=None, keepdims=False: g if anp.size(x) == 1 else ans * anp.sum(g / x, axis=axis, keepdims=keepdims)")]),
+    ("chooser-jvp-selects-greater-equal", {"C04": "A5.mask"}, [(NJ, "    chosen_locations = x == ans\n", "    chosen_locations = anp.isclose(x, ans)\n")]),
+    ("astype-vjp-no-cast-back", {"C05": "A4.match", "C09": "A4.match"}, [(NV, "    lambda ans, A, dtype, order=\"K\", casting=\"unsafe\", subok=True, copy=True: lambda g: anp._astype(\n        g, A.dtype\n    ),", "    lambda ans, A, dtype, order=\"K\", casting=\"unsafe\", subok=True, copy=True: lambda g: g,")]),
+    ("array-of-list-drops-options", {"C06": "A6.optpack"}, [(NW, "        return array_from_args(args, kwargs, *map(array, A))", "        return array_from_args((), {}, *map(array, A))")]),
+    ("kron-vjp-reverses-captured-shape-in-place", {"C10": "A10"}, [(NV, "        shape = list(A.shape + B.shape)\n        n = anp.ndim(A)\n        shape[n - 1], shape[n] = shape[n], shape[n - 1]", "        n = anp.ndim(A)\n        orig_A_shape[0], orig_B_shape[0] = orig_B_shape[0], orig_A_shape[0]\n        shape = list(A.shape + B.shape)\n        shape[n - 1], shape[n] = shape[n], shape[n - 1]")]),
+    ("jvp-node-unboxes-answer", {"C08": "A2.slot"}, [(CO, "        self.g = jvpmaker(parent_argnums, parent_gs, value, args, kwargs)", "        self.g = jvpmaker(parent_argnums, parent_gs, getval(value), args, kwargs)")]),
     ("container-space-loses-subval", {"C12": "A1.spaces"}, [(BU, "    def _subval(self, xs, idx, x):\n        d = dict(xs.items())\n        d[idx] = x\n        return d\n", "")]),
 ]
 
 BENIGN = [
+    ("tril-vjp-k-positional", [(NV, "defvjp(anp.tril, lambda ans, x, k=0: lambda g: anp.tril(g, k=k))", "defvjp(anp.tril, lambda ans, x, k=0: lambda g: anp.tril(g, k))")]),
+    ("roll-vjp-def-form", [(NV, "defvjp(anp.roll, lambda ans, x, shift, axis=None: lambda g: anp.roll(g, -shift, axis=axis))", "def _grad_roll(ans, x, shift, axis=None):\n    back = -shift\n    if axis is None:\n        return lambda g: anp.reshape(anp.roll(anp.ravel(g), back, 0), anp.shape(x))\n    return lambda g: anp.roll(g, back, axis)\n\n\ndefvjp(anp.roll, _grad_roll)")]),
+    ("chooser-jvp-scalar-test-by-ndim", [(NJ, "    if anp.isscalar(x):\n        return g\n    if not keepdims:", "    if anp.ndim(x) == 0:\n        return g\n    if not keepdims:")]),
+    ("clip-vjp-mask-strict-inequalities", [(NV, "unbroadcast_f(x, lambda g: g * anp.logical_and(ans != a_min, ans != a_max))", "unbroadcast_f(x, lambda g: g * anp.logical_and(ans > a_min, ans < a_max))")]),
+    ("chooser-vjp-mask-via-equal", [(NV, "        argmax_locations = x == repeat_to_match_shape(ans, shape, dtype, axis, keepdims)[0]", "        argmax_locations = anp.equal(x, repeat_to_match_shape(ans, shape, dtype, axis, keepdims)[0])")]),
+    ("array-of-list-comprehension", [(NW, "        return array_from_args(args, kwargs, *map(array, A))", "        return array_from_args(args, kwargs, *[array(a) for a in A])")]),
+    ("kron-vjp-swap-on-local-copy", [(NV, "        shape[n - 1], shape[n] = shape[n], shape[n - 1]", "        shape[n], shape[n - 1] = shape[n - 1], shape[n]")]),
+    ("astype-vjp-cast-by-method", [(NV, "    lambda ans, A, dtype, order=\"K\", casting=\"unsafe\", subok=True, copy=True: lambda g: anp._astype(\n        g, A.dtype\n    ),", "    lambda ans, A, dtype, order=\"K\", casting=\"unsafe\", subok=True, copy=True: lambda g: anp._astype(g, anp.result_type(A)),")]),
     ("diagonal-vjp-moveaxis-correct", [(NV, "lambda ans, A, offset=0, axis1=0, axis2=1: lambda g: anp.make_diagonal(g, offset, axis1, axis2),", "lambda ans, A, offset=0, axis1=0, axis2=1: lambda g: anp.moveaxis(anp.make_diagonal(g, offset, axis1=-1, axis2=-2), (-1, -2), (axis1, axis2)),")]),
     ("index-order-A-by-isfortran", [(NV, "    flags = onp.asarray(getval(x)).flags\n    if flags.c_contiguous:", "    if order == \"A\":\n        return \"F\" if onp.isfortran(onp.asarray(getval(x))) else \"C\"\n    flags = onp.asarray(getval(x)).flags\n    if flags.c_contiguous:")]),
     ("scalar-space-registration-by-issubclass-of-complexfloating", [(NS, "for type_ in [float, np.longdouble, np.float64, np.float32, np.float16]:\n    ArrayVSpace.register(type_)\n\nfor type_ in [complex, np.clongdouble, np.complex64, np.complex128]:\n    ComplexArrayVSpace.register(type_)", "for type_ in [float, np.longdouble, np.float64, np.float32, np.float16, complex, np.clongdouble, np.complex64, np.complex128]:\n    if issubclass(type_, (complex, np.complexfloating)):\n        ComplexArrayVSpace.register(type_)\n    else:\n        ArrayVSpace.register(type_)")]),
